@@ -50,6 +50,8 @@ type Contracts struct {
 	// TypeInvs: "pkg.Type" -> invariant over "self", maintained by every method of the type
 	// (visible-state semantics): assumed for the receiver at calls from outside the type.
 	TypeInvs map[string]Clause
+	// Immutable: "pkg.Struct.field" written only during construction of its object.
+	Immutable map[string]bool
 }
 
 type Pred struct {
@@ -198,7 +200,7 @@ func parseClause(text string) (Clause, error) {
 // ParseContracts reads every "//@" line of the given files (name -> text). Keys are fully
 // qualified: pkg.Func, pkg.Type.Method (pkg = last import path element; lib/go is "lib").
 func ParseContracts(files map[string]string) (*Contracts, error) {
-	cs := &Contracts{Funcs: map[string]*Contract{}, Containers: map[string]string{}, Preds: map[string]*Pred{}, TypeInvs: map[string]Clause{}}
+	cs := &Contracts{Funcs: map[string]*Contract{}, Containers: map[string]string{}, Preds: map[string]*Pred{}, TypeInvs: map[string]Clause{}, Immutable: map[string]bool{}}
 	var names []string
 	for n := range files {
 		names = append(names, n)
@@ -236,6 +238,11 @@ func ParseContracts(files map[string]string) (*Contracts, error) {
 				cs.Funcs[key] = cur
 				cs.Order = append(cs.Order, key)
 				curGuard = nil
+			case "immutable":
+				for _, f := range fields[1:] {
+					cs.Immutable[strings.TrimSuffix(f, ",")] = true
+				}
+				cur, curGuard = nil, nil
 			case "typeinv":
 				if len(fields) < 3 {
 					return nil, fail(fmt.Errorf("bad typeinv"))
